@@ -20,6 +20,7 @@ VERIF = os.path.dirname(os.path.dirname(os.path.abspath(__file__)))
 LEAN = os.path.join(VERIF, "lean")
 HARNESS = os.path.join(VERIF, "harness")
 REPO = "/repo"
+CTX = {}
 ADMISSIBLE_AXIOMS = {"propext", "Classical.choice", "Quot.sound"}
 GOENV = dict(os.environ, GOFLAGS="-mod=mod", GOPROXY="off", GOSUMDB="off", GOTOOLCHAIN="local",
              CGO_ENABLED=os.environ.get("CGO_ENABLED", "0"))
@@ -368,6 +369,8 @@ def _run(pid, mod, tier, seed, replay, n_override, scratch, t0, violations, know
         return 2
 
     # 4. operations
+    global CTX
+    CTX = {"vh": vh, "drv": drv, "scratch": scratch, "tier": tier, "seed": seed}
     known = load_known()
     ops = []
     corpus_dir = os.path.join(VERIF, "corpus", pid)
